@@ -21,6 +21,7 @@ import (
 	"strconv"
 	"strings"
 	"sync"
+	"sync/atomic"
 	"time"
 )
 
@@ -281,8 +282,26 @@ func Main(h Harness) {
 			ops = append(ops, l)
 		}
 		outs := make([]string, len(ops))
+		// A harness that sets no OpTimeout gets a generous default, so that a code change which makes
+		// an op loop forever is reported as a disagreement ("hang") instead of stalling the whole run;
+		// after a few such hangs the remaining ops are skipped (the check ignores skipped lines).
+		opTimeout, defaulted := h.OpTimeout, false
+		if opTimeout == 0 {
+			opTimeout, defaulted = 120*time.Second, true
+			if v, err := strconv.Atoi(os.Getenv("VERIF_OP_TIMEOUT_S")); err == nil && v > 0 {
+				opTimeout = time.Duration(v) * time.Second
+			}
+		}
+		var hangs atomic.Int32
 		run := func(i int) {
-			outs[i] = WithTimeout(h.OpTimeout, func() string { return Catch(func() string { return h.Exec(ops[i]) }) })
+			if defaulted && hangs.Load() >= 3 {
+				outs[i] = "skipped-after-hangs"
+				return
+			}
+			outs[i] = WithTimeout(opTimeout, func() string { return Catch(func() string { return h.Exec(ops[i]) }) })
+			if defaulted && outs[i] == "hang" {
+				hangs.Add(1)
+			}
 		}
 		if h.Serial || *j <= 1 {
 			for i := range ops {
